@@ -699,6 +699,16 @@ func genAlgebra(r *rand.Rand) logqIn {
 	eps, _ := json.Marshal(&ReAST{T: "eps"})
 	if r.Intn(3) != 0 {
 		f, g := genFilterStage(r), genFilterStage(r)
+		if r.Intn(4) == 0 {
+			// the same needle TEXT read once literally and once as a regular expression (the readings differ on some lines)
+			txt := pick(r, []string{"k=.", "a.c", "a|b", ".", "=\\d", "v=1+", "[ab]"})
+			op := []string{"eq", "neq"}[r.Intn(2)]
+			f = stageIn{T: "line", Op: op, Val: B(txt), Re: eps}
+			g = stageIn{T: "line", Op: map[string]string{"eq": "re", "neq": "nre"}[op], Val: B(txt), Re: eps}
+			if r.Intn(2) == 0 {
+				f, g = g, f
+			}
+		}
 		in.Fam = "fg"
 		in.Queries = [][]stageIn{cat(base), cat(base, f), cat(base, negStage(f)), cat(base, f, g), cat(base, g, f), cat(base, f, f), cat(base, g),
 			cat(base, stageIn{T: "line", Op: "eq", Val: Ints{}, Re: eps})}
